@@ -101,7 +101,8 @@ struct Sched {
   long default_cap;
   bool active;
   bool coarse;        // park only before whole queue operations (ThreadPool / Chain runs)
-  Sched() : default_cap(1), active(false), coarse(false) {}
+  volatile bool freerun;  // after a probe: every thread runs freely to the end
+  Sched() : default_cap(1), active(false), coarse(false), freerun(false) {}
 };
 
 Sched G;
@@ -139,14 +140,15 @@ void Park(std::unique_lock<std::mutex> &l, int id, const void *obj) {
   t.state = PARKED; t.point = id; t.obj = obj;
   G.cv.notify_all();
   int me = my_tid;
-  G.cv.wait(l, [me] { return G.th[me].go; });
+  G.cv.wait(l, [me] { return G.th[me].go || G.freerun; });
   G.th[me].go = false;
   G.th[me].state = RUNNING;
 }
 
 void Hook(int id, const void *obj) {
-  if (!G.active) return;
+  if (!G.active || G.freerun) return;
   std::unique_lock<std::mutex> l(G.m);
+  if (G.freerun) return;
   if (id == kThreadStart && my_tid < 0) {
     my_tid = (int)G.th.size();
     G.th.push_back(TS());
@@ -260,7 +262,7 @@ void Settle(std::unique_lock<std::mutex> &l, size_t expect_threads) {
 
 void ResetSched(long default_cap) {
   G.th.clear(); G.q.clear(); G.qorder.clear(); G.thread_of_obj.clear();
-  G.default_cap = default_cap; G.coarse = false;
+  G.default_cap = default_cap; G.coarse = false; G.freerun = false;
 }
 #endif  // HAVE_HOOKS
 
@@ -310,6 +312,8 @@ struct PcqCase {
   std::vector<std::vector<long> > prods;
   std::vector<long> quotas;
   std::vector<long> sched;
+  long probe;   // -2: none; -1: lowest blocked thread; >= 0: that thread
+  PcqCase() : cap(1), probe(-2) {}
 };
 
 std::string FinalLine(size_t first_cons, const std::vector<std::vector<long> > &got) {
@@ -370,6 +374,7 @@ std::string RunPcq(const PcqCase &c) {
         t = (int)c.sched[si++];
         if (t < 0 || t >= (int)G.th.size() || !Enabled(t)) { out << " x" << t; continue; }
       } else {
+        if (c.probe != -2) break;
         std::vector<long> en = EnabledSet();
         if (en.empty()) break;
         t = (int)en[0];
@@ -381,8 +386,35 @@ std::string RunPcq(const PcqCase &c) {
       QShadow &qs = Q(&queue);
       out << '/' << Join(EnabledSet()) << '/' << (qs.wbody - qs.rbody);
     }
+    if (c.probe != -2) {
+      // Probe: release a thread that the shadow says is blocked and expect it NOT to arrive anywhere.
+      int t = (int)c.probe;
+      if (t == -1) {
+        for (size_t i = 0; i < G.th.size(); ++i)
+          if (G.th[i].state == PARKED && !Enabled((int)i)) { t = (int)i; break; }
+      }
+      if (t < 0 || t >= (int)G.th.size() || G.th[t].state != PARKED || Enabled(t)) {
+        out << " P" << t << "=na";
+      } else {
+        const char *e = getenv("C17_PROBE_MS");
+        int ms = e ? atoi(e) : 60;
+        G.th[t].go = true;
+        G.th[t].state = RUNNING;
+        G.cv.notify_all();
+        bool arrived = G.cv.wait_for(l, std::chrono::milliseconds(ms), [t] { return G.th[t].state != RUNNING; });
+        out << " P" << t << (arrived ? "=passed" : "=blocked");
+      }
+      // let everything run to completion under the OS scheduler
+      G.freerun = true;
+      G.cv.notify_all();
+      bool ok = G.cv.wait_for(l, std::chrono::milliseconds(WatchdogMs()), [] {
+        for (size_t i = 0; i < G.th.size(); ++i) if (G.th[i].state != FINISHED) return false;
+        return true;
+      });
+      if (!ok) throw Stuck();
+    }
   } catch (Stuck &) {
-    out << " END stuck F " << FinalLine(P, got);
+    out << " END stuck F -";
     Die(out.str());
   }
   bool all = true;
@@ -596,6 +628,8 @@ int main() {
       for (size_t i = 0; i < ps.size(); ++i) c.prods.push_back(Nats(ps[i]));
       c.quotas = Nats(quotas);
       c.sched = Nats(sched);
+      std::string probe;
+      if (in >> probe) c.probe = (probe == "auto") ? -1 : atol(probe.c_str());
       std::cout << RunPcq(c) << std::endl;
 #if HAVE_HOOKS
     } else if (op == "pool") {
